@@ -47,6 +47,11 @@ impl Command for T {
         let val = a.get(1).filter(|v| v.as_str() != "-").cloned();
         match a.get(0).map(|s| s.as_str()).unwrap_or("cont") {
             "cont" => CommandResult::Continue(val),
+            // writes the runtime state: what commands leave in the state is what the returned context holds
+            "st" => {
+                context.state.insert("probe".to_string(), duckscript::types::runtime::StateValue::String(a.get(1).cloned().unwrap_or_default()));
+                CommandResult::Continue(val)
+            }
             "gotol" => CommandResult::GoTo(val, GoToValue::Label(a.get(2).cloned().unwrap_or_default())),
             "goton" => CommandResult::GoTo(val, GoToValue::Line(a.get(2).and_then(|x| x.parse().ok()).unwrap_or(0))),
             "exit" => CommandResult::Exit(val),
@@ -83,7 +88,8 @@ pub fn gen(r: &mut Rng) -> Value {
         let label = if r.chance(1, 3) { json!(r.pick(&labels)) } else { Value::Null };
         let out = if r.chance(1, 2) { json!(format!("v{}", r.below(3))) } else { Value::Null };
         let kind = match r.below(20) {
-            0..=5 => "cont",
+            0..=4 => "cont",
+            5 => "st",
             6 | 7 => "gotol",
             8 => "goton",
             9 => "exit",
@@ -211,6 +217,7 @@ pub fn run(input: &Value) -> Option<Value> {
     let file_path = std::env::temp_dir().join(format!("verif_c03_{}.ds", std::process::id()));
     let src_txt = if input["as_file"].as_bool().unwrap_or(false) { file_path.to_string_lossy().to_string() } else { String::new() };
     let mut halted = prehalt;
+    let mut state_probe: Option<String> = None;
     let mut outcome: Result<(), Option<usize>> = Ok(()); // Err(Some(source line)) = failure naming a line
     let mut steps = 0;
     loop {
@@ -248,9 +255,12 @@ pub fn run(input: &Value) -> Option<Value> {
         trace.push(format!("{}@{}({}|{}|{})->{:?}", if l["via_alias"].as_bool().unwrap_or(false) { "real" } else { "t" }, line, kind, val_arg, target, out));
         let val = if val_arg == "-" { None } else { Some(val_arg.clone()) };
         match kind {
-            "cont" | "halt" => {
+            "cont" | "halt" | "st" => {
                 if kind == "halt" {
                     halted = true;
+                }
+                if kind == "st" {
+                    state_probe = Some(val_arg.clone());
                 }
                 upd(&mut vars, &out, val);
                 line += 1;
@@ -340,8 +350,12 @@ pub fn run(input: &Value) -> Option<Value> {
         return Some(json!({"script": script, "what": "the run changed the embedder's halt flag", "model": halted, "real": halt.load(Ordering::SeqCst)}));
     }
     let real_trace = tr.lock().unwrap().clone();
+    let mut real_state_probe: Option<Option<String>> = None;
     let (real_vars, real_outcome): (Option<BTreeMap<String, String>>, Result<(), Option<usize>>) = match res {
-        Ok(ctx) => (Some(ctx.variables.iter().map(|(k, v)| (k.clone(), v.clone())).collect()), Ok(())),
+        Ok(ctx) => {
+            real_state_probe = Some(match ctx.state.get("probe") { Some(duckscript::types::runtime::StateValue::String(t)) => Some(t.clone()), _ => None });
+            (Some(ctx.variables.iter().map(|(k, v)| (k.clone(), v.clone())).collect()), Ok(()))
+        }
         Err(ref e @ ScriptError::Runtime(_, ref m)) => {
             // what is printed for the failure names the same line as the error value
             if let Some(n) = m.as_ref().and_then(|m| m.line) {
@@ -359,6 +373,12 @@ pub fn run(input: &Value) -> Option<Value> {
     }
     if real_outcome != outcome {
         return Some(json!({"script": script, "what": "success/failure (with line) differs", "model": format!("{:?}", outcome), "real": format!("{:?}", real_outcome)}));
+    }
+    if let Some(rs) = real_state_probe {
+        // a run that ends successfully (last line, exit, halt) returns the state as the commands left it
+        if outcome.is_ok() && rs != state_probe {
+            return Some(json!({"script": script, "what": "the returned context does not hold the state the commands left", "model": state_probe, "real": rs}));
+        }
     }
     if let Some(rv) = real_vars {
         if rv != vars {
